@@ -209,19 +209,32 @@ pub fn observe(v: &Value) -> Value {
         }
       }
     };
-    let source = if want("source") { guard("source", &mut || json!(src.source().to_string())) } else { None };
-    for (k, c, f) in [("c1f0", true, false), ("c0f0", false, false), ("c1f1", true, true), ("c0f1", false, true)] {
-      if want(k) {
-        if let Some(x) = guard(k, &mut || stream(&src, c, f)) {
-          streams.insert(k.to_string(), x);
+    // observations are made in the order the counterexample lists them (cache state depends on it)
+    let mut source: Option<Value> = None;
+    let order: Vec<String> = if what.is_empty() {
+      ["source", "c1f0", "c0f0", "c1f1", "c0f1", "map1", "map0"].iter().map(|s| s.to_string()).collect()
+    } else {
+      what.clone()
+    };
+    for w in order.iter() {
+      match w.as_str() {
+        "source" => {
+          source = guard("source", &mut || json!(src.source().to_string()));
         }
-      }
-    }
-    for (k, w, c) in [("c1", "map1", true), ("c0", "map0", false)] {
-      if want(w) {
-        if let Some(x) = guard(w, &mut || map_json(src.map(&MapOptions::new(c)))) {
-          maps.insert(k.to_string(), x);
+        "c1f0" | "c0f0" | "c1f1" | "c0f1" => {
+          let c = &w[1..2] == "1";
+          let f = &w[3..4] == "1";
+          if let Some(x) = guard(w, &mut || stream(&src, c, f)) {
+            streams.insert(w.to_string(), x);
+          }
         }
+        "map1" | "map0" => {
+          let c = w == "map1";
+          if let Some(x) = guard(w, &mut || map_json(src.map(&MapOptions::new(c)))) {
+            maps.insert(if c { "c1".to_string() } else { "c0".to_string() }, x);
+          }
+        }
+        _ => {}
       }
     }
     let mut subs = serde_json::Map::new();
